@@ -58,7 +58,7 @@ Canonical(k, s) ==
 
 \* a shape that adds, next to canonical content `int`, something NO content model of the universe knows:
 \* an element <zz> beside x (sibling).  Kinds that absorb anything (wildcards) are exempt.
-AbsorbsUnknown(k) == k \in {"wildcardList", "wildcardOne"}
+AbsorbsUnknown(k) == k \in {"wildcardList", "wildcardOne", "modelAndWildcard"}
 MustFailStrict(k, s) == s = "sibling" /\ ~AbsorbsUnknown(k)
 
 \* C10: text the declared type has no lexical form for.  It is kept AS GIVEN (the raw text, not a piece or a
